@@ -710,6 +710,15 @@ func vRejectReason(s vSnap) string {
 			all = append(all, ent{pi, w})
 		}
 	}
+	for _, n := range s.Nodes {
+		for _, ip := range n.IPs {
+			for _, e := range all {
+				if ip.Internal && e.w.has(ip.Fam, vBig(ip.A)) {
+					return "a node internal IP lies in an address entry"
+				}
+			}
+		}
+	}
 	for _, adv := range s.BGP {
 		for _, e := range all {
 			l, w := 32, 32
@@ -899,6 +908,12 @@ func TestVerifCfg(t *testing.T) {
 	if n > 0 {
 		for k := 0; k < 96; k++ {
 			snaps = append(snaps, vGenNotation(r, k+96*r.Intn(2)))
+		}
+		for k := 0; k < 64; k++ {
+			snaps = append(snaps, vGenMixedNode(r, k))
+		}
+		for k := 0; k < 24; k++ {
+			snaps = append(snaps, vGenSelGroup(r, k), vGenL2Nested(r, k))
 		}
 		nsweep := 130
 		if vThorough() {
